@@ -259,9 +259,15 @@ def module_src(t):
 # groups
 
 class Group:
-    def __init__(self, name, members, n_mand, enabled):
-        """members: list of (module name, Trait); first n_mand are mandatory; enabled: bitmask over optional"""
+    def __init__(self, name, members, n_mand, enabled, aliases=None):
+        """members: list of (module name, Trait); first n_mand are mandatory; enabled: bitmask over optional;
+        aliases: {optional index: alias} (`Trait = Alias` in the group definition)"""
         self.name, self.members, self.n_mand, self.enabled = name, members, n_mand, enabled
+        self.aliases = aliases or {}
+
+    def visible(self, oi):
+        """the name by which optional trait oi is known in the group"""
+        return self.aliases.get(oi) or self.opt()[oi][1].name
 
     def mand(self):
         return self.members[:self.n_mand]
@@ -279,19 +285,23 @@ class Group:
         return k
 
     def describe(self):
-        return {"group": self.name, "mandatory": [t.name for (_, t) in self.mand()], "optional": [t.name for (_, t) in self.opt()],
-                "enabled": [t.name for i, (_, t) in enumerate(self.opt()) if self.enabled >> i & 1], "containers": self.kinds()}
+        return {"group": self.name, "mandatory": [t.name for (_, t) in self.mand()],
+                "optional": [(t.name + (" = " + self.aliases[i] if i in self.aliases else "")) for i, (_, t) in enumerate(self.opt())],
+                "enabled": [self.visible(i) for i in range(len(self.opt())) if self.enabled >> i & 1], "containers": self.kinds()}
 
 
-def group_src(g):
+def group_src(g, lite=False):
+    """lite: only single-trait requests (such a module still compiles on trees where the
+    naming of multi-trait conversion functions is disturbed, and still checks the layout)"""
     T = g.name
     mods = sorted(set(m for (m, _) in g.members))
     uses = "".join(f"use super::{m}::*;\n" for m in mods)
     mand_names = [t.name for (_, t) in g.mand()]
-    opt_names = [t.name for (_, t) in g.opt()]
+    opt_names = [g.visible(i) for i in range(len(g.opt()))]   # visible (alias) names
+    opt_decl = [(t.name + (f" = {g.aliases[i]}" if i in g.aliases else "")) for i, (_, t) in enumerate(g.opt())]
     mand_txt = "{}" if not mand_names else (mand_names[0] if len(mand_names) == 1 else "{ " + ", ".join(mand_names) + " }")
-    decl = f"cglue_trait_group!({T}, {mand_txt}, {{ {', '.join(opt_names)} }});"
-    en = [n for i, n in enumerate(opt_names) if g.enabled >> i & 1]
+    decl = f"cglue_trait_group!({T}, {mand_txt}, {{ {', '.join(opt_decl)} }});"
+    en = [n for i, n in enumerate(opt_decl) if g.enabled >> i & 1]
     impls = "\n".join(impl_def(t, "GImp") for (_, t) in g.members)
     impl_group = f"cglue_impl_group!(GImp, {T}, {{ {', '.join(en)} }});"
     nopt = len(opt_names)
@@ -324,10 +334,14 @@ def group_src(g):
             masks = []
             if not is_mand:
                 masks.append(1 << oi)
-                if g.enabled | (1 << oi) != (1 << oi):
+                if g.enabled | (1 << oi) != (1 << oi) and not lite:
                     masks.append(g.enabled | (1 << oi))
             elif nopt:
-                masks.append(g.enabled if g.enabled else 1)
+                if lite:
+                    low = g.enabled & -g.enabled if g.enabled else 1
+                    masks.append(low)
+                else:
+                    masks.append(g.enabled if g.enabled else 1)
             for mask in masks:
                 names = " + ".join(subset_names(mask))
                 if not names:
@@ -370,10 +384,11 @@ def group_src(g):
     m_, k_ = len(mand_names), len(opt_names)
     lay = ["    let mut opt_ptrs: Vec<(usize, usize, &str)> = Vec::new();"]
     for i, (_, t) in enumerate(g.opt()):
-        pos = m_ + sorted_opt.index(t.name)
+        vis = g.visible(i)
+        pos = m_ + sorted_opt.index(vis)
         if g.enabled >> i & 1:
             # the cast form is a concrete type that exposes its vtable references; cast and come back
-            lay.append(f"    {{ let before = raw_words(g_.as_ref().unwrap(), {m_ + k_}); let c = match cast!(g_.take().unwrap() impl {t.name}) {{ Some(c) => c, None => return Err(Fail::new(\"C08:refused\", \"cast to the enabled trait {t.name} refused\".to_string())) }}; opt_ptrs.push(({pos}, vt_ptr::<{t.name}Vtbl<'_, _>, _>(&c), \"{t.name}\")); same_words(&before, &raw_words(&c, {m_ + k_}), \"{T}\", \"cast to {t.name}\")?; g_ = Some(c.upcast()); same_words(&before, &raw_words(g_.as_ref().unwrap(), {m_ + k_}), \"{T}\", \"cast to {t.name} and back\")?; }}")
+            lay.append(f"    {{ let before = raw_words(g_.as_ref().unwrap(), {m_ + k_}); let c = match cast!(g_.take().unwrap() impl {vis}) {{ Some(c) => c, None => return Err(Fail::new(\"C08:refused\", \"cast to the enabled trait {vis} refused\".to_string())) }}; opt_ptrs.push(({pos}, vt_ptr::<{t.name}Vtbl<'_, _>, _>(&c), \"{vis}\")); same_words(&before, &raw_words(&c, {m_ + k_}), \"{T}\", \"cast to {vis}\")?; g_ = Some(c.upcast()); same_words(&before, &raw_words(g_.as_ref().unwrap(), {m_ + k_}), \"{T}\", \"cast to {vis} and back\")?; }}")
     lay.append("    let g = g_.as_ref().unwrap();")
     lay.append(f"    let gbase = g as *const _ as usize; let words = unsafe {{ ::core::slice::from_raw_parts(gbase as *const usize, {m_ + k_}) }};")
     for (_, t) in g.mand():
@@ -381,9 +396,9 @@ def group_src(g):
         lay.append(f"    {{ let p = vt_ptr::<{t.name}Vtbl<'_, _>, _>(g); if words[{pos}] != p {{ return Err(Fail::new(\"C04:group-order\", format!(\"group {T}: the vtable pointer of mandatory trait {t.name} is not at word {pos} (mandatory vtables in name order first); it is at word {{:?}}\", words.iter().position(|w| *w == p)))); }} }}")
     lay.append(f"    for (pos, p, tn) in opt_ptrs.iter() {{ if words[*pos] != *p {{ return Err(Fail::new(\"C04:group-order\", format!(\"group {T}: the vtable pointer of optional trait {{}} is not at word {{}} (optional vtables in name order after the mandatory ones); it is at word {{:?}}\", tn, pos, words.iter().position(|w| w == p)))); }} }}")
     for i, (_, t) in enumerate(g.opt()):
-        pos = m_ + sorted_opt.index(t.name)
+        pos = m_ + sorted_opt.index(g.visible(i))
         if not (g.enabled >> i & 1):
-            lay.append(f"    if words[{pos}] != 0 {{ return Err(Fail::new(\"C04:group-null\", format!(\"group {T}: the slot of the optional trait {t.name}, which the implementor does not enable, is not null (word {pos})\"))); }}")
+            lay.append(f"    if words[{pos}] != 0 {{ return Err(Fail::new(\"C04:group-null\", format!(\"group {T}: the slot of the optional trait {g.visible(i)}, which the implementor does not enable, is not null (word {pos})\"))); }}")
     lay.append(f"    group_container_check(gbase, ::core::mem::size_of_val(g), {m_ + k_}, g.ccont_ref() as *const _ as usize, ::core::mem::size_of_val(g.ccont_ref()), {{ let (o, c) = g.ccont_ref().cobj_base_ref(); (o as *const _ as usize, c as *const _ as usize) }}, inst_size, \"{T}\")?;")
     lay.append("    verifkit::alloc::exempt(|| drop(opt_ptrs));")
     layout = "\n".join(lay)
